@@ -276,14 +276,11 @@ package bkl
 //
 //@ func finalizeMap(obj) (res)
 //@   requires ((_ is VMap) obj)
-//@   requires (keysInj (mc obj))                                                   [C09]
 //@   ensures (= res (finF obj))                                                    [C06] [C09]
 //@   decreases (rank obj) 0
 //@   loop 1
 //@     invariant ((_ is VMap) newObj)
-//@     invariant (forall ((j String)) (=> (select visited j) (= (select (mc newObj) (unesc j)) (finF (select (mc obj) j)))))
-//@     invariant (forall ((k2 String)) (=> (not (= (select (mc newObj) k2) VAbsent))
-//@                  (exists ((j String)) (and (select visited j) (= (unesc j) k2)))))
+//@     invariant (= (finFold (mc newObj) (mc obj) rest) (finFold emptyM (mc obj) (sortedKeys (mc obj))))
 
 // ------------------------------------------------------------------------------------------------- parser.go (output side)
 
